@@ -65,7 +65,7 @@ CUTS_T = CUTS_Q + [
     ('B1', [(MAINNAME, 4, 6, 'x/inc.conf')], False),
     ('B2', [(MAINNAME, 0, 4, 'x/inc.conf'), ('x/inc.conf', 1, 3, 'x/i2.conf')], True),
     ('B2', [(MAINNAME, 3, 4, 'x/inc.conf')], True),
-    ('B3', [(MAINNAME, 5, 6, 'x/inc.conf'), (MAINNAME, 6, 7, 'x/tail.conf')], True),
+    ('B3', [(MAINNAME, 5, 6, 'x/inc.conf'), (MAINNAME, 6, 7, 'x/tail.conf')], False),
     ('B3', [(MAINNAME, 4, 7, 'x/inc.conf')], False),
     ('B5', [(MAINNAME, 1, 2, 'x/k.conf'), (MAINNAME, 5, 6, 'x/k.conf')], True),
 ]
@@ -84,6 +84,17 @@ def _delta(line):
     if t.startswith('<') and not t.endswith('/>'):
         return 1
     return 0
+
+
+def _balanced(lines):
+    d = 0
+    for l in lines:
+        if isinstance(l, str) and l.strip().startswith('%include '):
+            continue
+        d += _delta(l)
+        if d < 0:
+            return False
+    return d == 0
 
 
 def ranges(lines):
@@ -225,6 +236,11 @@ class C06(P.TextMixin, Harness):
             us.append({'schema': sid, 'files': files, 'balanced': False, 'base': 'dangling'})
         for base, cuts, bal in (CUTS_Q if tier == 'quick' else CUTS_T) + generated_cuts(tier):
             sid, files = make_files(base, cuts)
+            # the declared flag must agree with the nesting of every fragment (a hand-written entry
+            # once claimed a lone closer to be balanced)
+            really = all(_balanced(ls) for n, ls in files[1:])
+            if really != bal:
+                raise RuntimeError('C06 unit list: balanced flag wrong for %r %r' % (base, cuts))
             u = {'schema': sid, 'files': files, 'balanced': bal, 'base': base}
             k = json.dumps(u, sort_keys=True)
             if k not in seen:
